@@ -73,6 +73,8 @@ class Ctx:
         self.disagreements.append(dict(what=what, replay=replay))
 
     def budget(self, quick, thorough):
+        if getattr(self, 'searching', False) and self.tier != 'thorough':
+            return min(thorough, quick * 4)      # the intensified search after a broken tie
         return thorough if self.tier == 'thorough' else quick
 
     def elapsed(self):
@@ -307,6 +309,8 @@ def main(mod, argv):
     # intensified search when the tie or a proof broke but no violation is known yet
     if broken and not ctx.violations and hasattr(mod, 'search'):
         try:
+            ctx.searching = True
+            ctx.rng = random.Random(seed + 7919)
             mod.search(ctx, broken)
         except DriverUnavailable:
             pass
